@@ -32,12 +32,16 @@ def oracle(case):
         return "illtyped:%s" % e
     if ref[0] != "ok":
         return ref[0]
+    pcode = code
+    if xc.has_prim(code, "LAMBDA_REC"):
+        pcode = xc.swap_rec_bodies(code)  # C01's recorded finding (body stack order) must not hide the types from this check
     if case.get("session") is not None:  # REPL route: the program follows cells that failed (rolled-back state must not leak)
-        items, err = xc.run_pytezos_session(inputs, code, env, case["session"])
+        items, err = xc.run_pytezos_session(inputs, pcode, env, case["session"])
         if items == "skip":
             return "session-skip"
     else:
-        items, err = xc.run_pytezos(inputs, code, env)
+        stepwise(case, inputs, code, pcode, env)  # types after every top-level instruction, not only at the end
+        items, err = xc.run_pytezos(inputs, pcode, env)
     if err is not None:
         return "pytezos-failed"  # C01's subject
     known = "MAP-empty-type-change" in xc.LAST_TRACE
@@ -56,6 +60,42 @@ def oracle(case):
                 i, t, errs[:3], xc._short(code)), case,
                 "known:map-empty-type-change" if known else "component-type:" + _blame(code))
     return "ok"
+
+
+def stepwise(case, inputs, code, pcode, env):
+    """Runs the top-level instructions one at a time and compares the runtime types of all slots with the static type stack
+    after each of them: a value of the wrong type is seen before a later instruction trips over it."""
+    from pytezos.michelson.stack import MichelsonStack
+    ctx = xc.pytezos_context(env)
+    stack = MichelsonStack()
+    stk, out, err = interp.run(xc.prelude(inputs), stack=stack, context=ctx)
+    if err is not None:
+        return
+    m = ri.Machine(concrete=False, fuel=100000)
+    sts = [(i["t"], ri.ABS) for i in inputs]
+    for k, (ins, pins) in enumerate(zip(code, pcode)):
+        try:
+            sts = m.run([ins], sts)
+        except (ri.Failed, ri.IllTyped, ri.Budget):
+            return
+        if "MAP-empty-type-change" in m.trace or xc.has_prim([ins], "MAP"):
+            return  # the recorded finding about MAP over empty collections: judged at the end only, with its signature
+        stk, out, err = interp.run([pins], stack=stack, context=ctx)
+        if err is not None:
+            return
+        if len(stack.items) != len(sts):
+            raise Violation("after instruction #%d %s the stack holds %d values, its static type has %d slots; code %s" % (
+                k, ins.get("prim") if isinstance(ins, dict) else "{}", len(stack.items), len(sts), xc._short(code)), case,
+                "stack-depth:" + _blame([ins]))
+        for i, ((t, _), item) in enumerate(zip(sts, stack.items)):
+            ty = interp.strip_annots(type(item).as_micheline_expr())
+            if ty != t:
+                raise Violation("after instruction #%d %s slot %d has runtime type %s, static type %s; code %s" % (
+                    k, ins.get("prim") if isinstance(ins, dict) else "{}", i, ty, t, xc._short(code)), case, "slot-type:" + _blame([ins]))
+            errs = xc.deep_type_errors(item)
+            if errs:
+                raise Violation("after instruction #%d slot %d (static type %s) holds inconsistent components: %s; code %s" % (
+                    k, i, t, errs[:3], xc._short(code)), case, "component-type:" + _blame([ins]))
 
 
 def _blame(code):
@@ -83,7 +123,8 @@ def oracle_contract(case):
     from pytezos.michelson.repl import Interpreter
     pt, st_t = case["param_t"], case["storage_t"]
     script = [{"prim": "parameter", "args": [pt]}, {"prim": "storage", "args": [st_t]},
-              {"prim": "code", "args": [[{"prim": "CAR"}] + case["code"] + [{"prim": "NIL", "args": [rv.T("operation")]}, {"prim": "PAIR"}]]}]
+              {"prim": "code", "args": [[{"prim": "CAR"}] + (xc.swap_rec_bodies(case["code"]) if xc.has_prim(case["code"], "LAMBDA_REC") else
+                                                             case["code"]) + [{"prim": "NIL", "args": [rv.T("operation")]}, {"prim": "PAIR"}]]}]
     env = xc.env_from_json(case["env"])
     try:
         ref = xc.run_reference([{"t": pt, "v": case["param"]}], case["code"], env)
@@ -114,7 +155,12 @@ def oracle_contract(case):
 
 @st.composite
 def cases(draw, size, depth):
-    prog = draw(gp.programs(n_inputs=(1, 3), size=size, depth=depth, profile=draw(st.sampled_from(["core", "collections", "collections", "tickets", "tickets", "combs", "combs"]))))
+    force = None
+    if draw(st.integers(0, 2)) == 0:  # focused: the first chunk kind is drawn uniformly, so every instruction family gets its share
+        force = [draw(st.sampled_from(gp.ALL_KINDS))]
+        size = (1, 3)
+    prog = draw(gp.programs(n_inputs=(1, 3), size=size, depth=depth, force=force,
+                            profile=draw(st.sampled_from(["core", "core", "collections", "collections", "tickets", "tickets", "tickets", "combs", "combs"]))))
     case = {"inputs": prog["inputs"], "code": prog["code"], "env": xc.env_to_json(draw(gp.env_strategy()))}
     if draw(st.integers(0, 4)) == 0:
         case["session"] = draw(st.lists(st.sampled_from(xc.FAILING_CELLS), min_size=1, max_size=2))
@@ -171,7 +217,7 @@ def run(h):
     passed, skipped = selfcheck.ref_interp_vectors()
     h.coverage_extra["reference_validated"] = "reference interpreter reproduces %d Octez opcode vectors" % passed
     size, depth = ((1, 8), 2) if h.quick else ((1, 16), 3)
-    h.run_given(lambda: cases(size, depth), _prop, h.n(50, 4000), shards=16, classify=classify, name="stack")
+    h.run_given(lambda: cases(size, depth), _prop, h.n(70, 4000), shards=16, classify=classify, name="stack")
     h.run_given(lambda: contract_cases(size, depth), _prop, h.n(8, 1000), shards=16, classify=classify, name="contract")
     if h.stats.extra.get("generator_illtyped", 0) > 0.05 * max(1, h.stats.evaluations):
         raise Inconclusive("too many ill-typed programs generated")
